@@ -423,6 +423,9 @@ func TestC06(t *testing.T) {
 		return c06History{Files: rapid.IntRange(2, 40).Draw(t, "files"), Recs: recs, PlainLens: []int{0, 10, chunk + 1}}
 	}, hist)
 
+	// the CLI's autogenerated passphrase words (cmd/age/wordlist.go), in-package
+	overlayCheck(s, "C06", "cli-random-word", "TestVerifOverlayC06", s.N(20000, 50000))
+
 	fault := func(c c06FaultCase) error { return c06CheckFault(c, s.St) }
 	pbt.Regress(s, "faulty-destination", fault)
 	pbt.Each(s, "faulty-destination", func(yield func(c06FaultCase)) {
